@@ -374,13 +374,19 @@ def _lifecycle_case(ev, w, plan, sib=0):
             ctx.__enter__()
         job.document["x"] = 1
         writer = copy.copy(job) if sib else job     # sib: a shallow copy taken AFTER the document was first used shares the document object
-        if ev == 0:
+        if ev == 0 and sib == 2:
+            # the job is removed and re-created through the COPY; the original handle (which has read the document) writes afterwards
+            writer.remove()
+            writer.init()
+            writer = job
+            want_doc, cur = {"y": w}, {"a": 0}
+        elif ev == 0:
             job.remove()
             want_doc, cur = {"y": w}, {"a": 0}
         else:
             job.statepoint["a"] = 1
             want_doc, cur = {"x": 1, "y": w}, {"a": 1}
-        if sib and ev == 0:
+        if sib == 1 and ev == 0:
             writer.init()      # the job is re-created through the surviving copy before its document is used again
         writer.document["y"] = w
         if ctx:
@@ -403,11 +409,11 @@ def _lifecycle_case(ev, w, plan, sib=0):
     return (not problems), problems
 
 
-def h_lifecycle(ev: int, w: int, plan: int, sib: bool):
-    assert 0 <= ev <= 5 and 0 <= w <= 1 and 0 <= plan <= 1 and (ev != 2 or not sib)
+def h_lifecycle(ev: int, w: int, plan: int, sib: int):
+    assert 0 <= ev <= 5 and 0 <= w <= 1 and 0 <= plan <= 1 and 0 <= sib <= 2 and (ev != 2 or not sib) and (sib < 2 or (ev == 0 and plan == 0))
     assert not (ev in (1, 2) and plan == 1)  # a state point change inside a buffered block is not a document operation (outside the claim; see DESIGN §6)
     fresh_path()
-    ev, w, plan, sib = ci(ev, 0, 5), ci(w, 0, 1), ci(plan, 0, 1), cb(sib)
+    ev, w, plan, sib = ci(ev, 0, 5), ci(w, 0, 1), ci(plan, 0, 1), ci(sib, 0, 2)
     with nt():
         r = _lifecycle_case(ev, w, plan, sib)
     reached()
